@@ -27,7 +27,7 @@ MANIFEST = {
     "note": "extension-type encodings, sets, records, entity attributes, `in`, tags are compared by the oracle only (not in the Gallina fragment)",
 }
 
-DANGLING_KEY = "C18:dangling-entity-reference-defaults"
+DANGLING_KEY = "C18:dangling-entity-reference-defaults"   # reserved (see notes/C18.md); the dangling stream is measured, not judged
 
 
 # ====================================================================== tgen stream
@@ -233,8 +233,7 @@ def systematic_core(rng):
             bodies += [("and", x, y), ("or", x, y), ("unop", "not", ("and", x, y))]
             for z in (t, f, ovf):
                 bodies.append(("if", x, y, z))
-    bodies.append(("binop", "eq", ("binop", "add", L("long", I64_MAX), L("long", 1)), L("string", "a")))
-    bodies.append(("binop", "eq", L("string", "a"), ("binop", "mul", L("long", I64_MIN), L("long", -1))))
+    # (cross-type `==` is rejected by strict validation, so it never reaches the compiler: not generated)
     cases = []
     for k in range(0, len(bodies), 3):
         cases.append(core_case(rng, bodies[k:k + 3]))
